@@ -17,18 +17,20 @@ bind  : every state of MC_BandSelectFiles is executed on the real EIG, AMN, MMN,
 import copy
 import json
 import os
+import pickle
 import random
 import re
 import shutil
 import threading
 import types
 import warnings
+import zlib
 import numpy as np
 
 from .. import tlc, ftable
 from ..common import Report, MachineryError, seed, quiet, workdir, WORK
 from . import _x03_w90 as W
-from ._x03_w90 import canon, build, try_project, cont_project, same_files, diff_files, nobook, to_json_obj, L
+from ._x03_w90 import canon, build, try_project, cont_project, same_files, diff_files, nobook, to_json_obj
 
 PROPS = {
     "X03": dict(level="model_checking",
@@ -66,9 +68,8 @@ PROPS = {
 FIXED = dict(WriterIndexing='"nested"', MmnWriterBkvec="TRUE", LoadtxtSqueeze="FALSE",
              MaskShapeCheck='"before"', Bookkeeping='"composed"', ChkNumBands='"update"', WindowOverK='"any"')
 ALLCLS = '{"eig", "amn", "mmn", "bkvec", "chk", "spn", "uhu", "uiu", "shu", "siu"}'
-ARGS_QUICK = ["L012", "L12", "L20", "L1", "L0", "L112", "L3", "Lm1", "Le", "MTFT", "MTTT", "MTT", "Win", "Wlow", "Wnone", "Wtie",
-              "Wstr", "Wbs", "NONE"]
-ARGS_ALL = ARGS_QUICK + ["L01", "L10", "MFTT", "MFT", "Winf", "Wbe"]
+ARGS = ["L012", "L12", "L20", "L1", "L0", "L112", "L3", "Lm1", "Le", "MTFT", "MTTT", "MTT", "Win", "Wlow", "Wnone", "Wtie",
+        "Wstr", "Wbs", "Wbe", "NONE"]          # (the catalogue of MC_BandSelect.tla also has L01, L10, MFTT, MFT, Winf)
 FINV = ["FStatus", "FEntries", "FShape", "FIdentity", "FCompose", "FBook"]
 CINV = ["Status", "MaskEqualsList", "AllRestricted", "IdentityNoop", "WindowDoc", "AfterSelect", "AlwaysConform", "SetAfterSelection",
         "SetProjectionsRight", "SetManuallyRight", "SetLaterAccepted", "Deprecated", "NpzKeeps", "NpzCommutes"]
@@ -307,6 +308,23 @@ def hkey(hist):
     return tuple((e["op"], e["aid"], e["id"], e["flag"]) for e in hist)
 
 
+class St:
+    """one state of MC_BandSelect, kept small: the behaviour (entries shared between the states), the ghost, and the container
+    in canonical form, compressed"""
+    __slots__ = ("hist", "clab", "selected", "selbands", "_files")
+
+    def __init__(self, s, intern):
+        self.hist = tuple(intern.setdefault(repr(e), e) for e in s["hist"])
+        self.clab = [int(v) for v in s["clab"]]
+        c = s["cont"]
+        self.selected = bool(c["selected"])
+        self.selbands = [int(v) for v in c["selbands"]]
+        self._files = zlib.compress(pickle.dumps(cont_canon(c), protocol=4), 1)
+
+    def files(self):
+        return pickle.loads(zlib.decompress(self._files))
+
+
 class ContReplay:
     def __init__(self, vio, states, pool, wd):
         self.vio, self.states, self.pool, self.wd = vio, states, pool, wd
@@ -342,14 +360,14 @@ class ContReplay:
 
     def run(self, s):
         """executes the behaviour of state s; every step whose prefix has not been verified yet is verified"""
-        hist = s["hist"]
+        hist = s.hist
         key = hkey(hist)
         w = self.new_container(hist[0])
         if w is None:
             return False
         if key[:1] not in self.memo:
             cur, prob = self.proj(w)
-            self.memo[key[:1]] = cur is not None and same_files(cur, cont_canon(self.states[key[:1]]["cont"]), book=True)
+            self.memo[key[:1]] = cur is not None and same_files(cur, self.states[key[:1]].files(), book=True)
             if not self.memo[key[:1]]:
                 self.info.note("preset_container_differs_from_model")
         if not self.memo[key[:1]]:
@@ -381,8 +399,8 @@ class ContReplay:
             k = (op, e["class"] if op in ("select", "set_file") else "after_%d_selections" % len(rets) if op.startswith("set_") else "")
             self.count[k] = self.count.get(k, 0) + 1
         info = self.describe(hist, n) if verify else None
-        want = cont_canon(st["cont"])
-        before = cont_canon(prev["cont"])
+        want = st.files() if verify else None
+        before = prev.files() if verify else None
         if op == "select":
             kw = kwargs_of(e["arg"], e["flag"], variant=self.nstep)
             r, ex, site = call(w.select_bands, **kw)
@@ -457,7 +475,7 @@ class ContReplay:
             else:
                 try:
                     sb = as_ints(sb)
-                    self.info.note("WannierData.selected_bands:" + ("as_model(composed)" if sb == [int(v) for v in st["cont"]["selbands"]]
+                    self.info.note("WannierData.selected_bands:" + ("as_model(composed)" if sb == st.selbands
                                                                    else "last_argument" if sb == ret else "other"))
                 except Exception:
                     self.info.note("WannierData.selected_bands:unreadable")
@@ -562,7 +580,7 @@ class ContReplay:
             got = None if cur is None or "amn" not in cur else cur["amn"]
             self.vio.violation(f"{site_name}:wrong_bands:{nsel}",
                                dict(info, problem=prob, what="the .amn of the container is not the fresh .amn restricted to the bands of the container",
-                                    bands_of_the_container=[int(v) for v in st["clab"]],
+                                    bands_of_the_container=st.clab,
                                     expected_first_rows={k: v[:3] for k, v in list(want["amn"]["dic"]["data"].items())[:1]},
                                     got_first_rows=None if got is None else {k: v[:3] for k, v in list(got["dic"]["data"].items())[:1]},
                                     units="1/8, [re, im]"))
@@ -577,7 +595,7 @@ class ContReplay:
     def npz(self, s, succ):
         """s: a state with a savable container holding an .eig; succ: {aid: successor state of select(aid)}"""
         from wannierberri.w90files.wandata import WannierData
-        hist = s["hist"]
+        hist = s.hist
         done = 0
         for aid, t in sorted(succ.items()):
             w = self.rebuild(hist)
@@ -586,7 +604,7 @@ class ContReplay:
             d = os.path.join(self.wd, f"npz{self.nstep}_{done}")
             os.makedirs(d, exist_ok=True)
             try:
-                info = dict(self.describe(hist, len(hist)), then=dict(select_bands=show_kwargs(kwargs_of(t["hist"][-1]["arg"], False))))
+                info = dict(self.describe(hist, len(hist)), then=dict(select_bands=show_kwargs(kwargs_of(t.hist[-1]["arg"], False))))
                 cur0, _ = self.proj(w)
                 _, ex, site = call(w.to_npz, os.path.join(d, "a"))
                 if ex is not None:
@@ -603,7 +621,7 @@ class ContReplay:
                     self.vio.violation("WannierData.from_npz:after_selection:files", dict(info, problem=prob, differing=[] if curl is None else diff_files(curl, cur0),
                                                                                          what="a container saved after the calls and loaded back holds other files"))
                     return done
-                a = t["hist"][-1]["arg"]
+                a = t.hist[-1]["arg"]
                 # load, then select
                 r2, ex2, site2 = call(wl.select_bands, **kwargs_of(a, True))
                 # select, then save and load
@@ -624,13 +642,13 @@ class ContReplay:
                     return done
                 p2, _ = self.proj(wl)
                 p1, _ = self.proj(w1)
-                want = cont_canon(t["cont"])
+                want = t.files()
                 if p1 is None or p2 is None or not same_files(p1, p2) or as_ints(r1) != as_ints(r2):
                     self.vio.violation("WannierData.select_bands:npz_commutes:files",
                                        dict(info, differing=[] if p1 is None or p2 is None else diff_files(p1, p2), returned=[as_ints(r1), as_ints(r2)],
                                             what="load then select differs from select then save and load"))
                     return done
-                if t["hist"][-1]["must"] == "accept" and not same_files(p2, want):
+                if t.hist[-1]["must"] == "accept" and not same_files(p2, want):
                     self.vio.violation("WannierData.select_bands:on_loaded_container:files", dict(info, differing=diff_files(p2, want)))
                     return done
                 done += 1
@@ -958,28 +976,33 @@ def check(pid, tier):
         raise
 
 
-def parallel(jobs):
-    """jobs: {name: callable}; at most 3 TLC runs at a time (harness/tlc.py throttles machine-wide on top of that)"""
-    out, errs = {}, {}
-    sem = threading.Semaphore(3)
+class Jobs:
+    """TLC runs started together, at most 3 at a time (harness/tlc.py throttles machine-wide on top of that)"""
 
-    def run(n, f):
-        with sem:
+    def __init__(self, jobs):
+        self.out, self.errs, self.threads = {}, {}, {}
+        self.sem = threading.Semaphore(3)
+        for n, f in jobs.items():
+            self.threads[n] = threading.Thread(target=self._run, args=(n, f))
+        for t in self.threads.values():
+            t.start()
+
+    def _run(self, n, f):
+        with self.sem:
             try:
-                out[n] = f()
+                self.out[n] = f()
             except BaseException as ex:        # re-raised in the caller's thread
-                errs[n] = ex
-    ts = [threading.Thread(target=run, args=(n, f)) for n, f in jobs.items()]
-    for t in ts:
-        t.start()
-    return ts, out, errs
+                self.errs[n] = ex
 
+    def get(self, n):
+        self.threads[n].join()
+        if n in self.errs:
+            raise self.errs[n]
+        return self.out[n]
 
-def join(ts, errs):
-    for t in ts:
-        t.join()
-    for n, ex in errs.items():
-        raise ex
+    def finish(self):
+        for t in self.threads.values():
+            t.join()
 
 
 def need(st, name):
@@ -1030,25 +1053,7 @@ def _check(rep, pid, tier):
 
     # ---------------- TLC: function table, container, pool (concurrently)
     fconst = dict(CLS=ALLCLS, NBS="{1, 2, 3}")
-    args = ARGS_ALL if thorough else ARGS_QUICK
-    cc = cconst(3 if thorough else 2, [1, 2, 3, 4, 5], args, not thorough)
-    ts, out, errs = parallel({
-        "files": lambda: tlc.run_tlc("MC_BandSelectFiles.tla", cfg("FSpec", fconst, FINV), tname("files"), workers=4, dump=True, coverage=False, timeout=1800),
-        "cont": lambda: tlc.run_tlc("MC_BandSelect.tla", cfg("CSpec", cc, CINV), tname("cont"), workers=4, dump=True, coverage=False,
-                                    timeout=3000 if thorough else 1500),
-        "pool": lambda: tlc.run_tlc("MC_BandSelect.tla", cfg("PSpec", cc, []), tname("pool"), workers=1, dump=True, coverage=False, timeout=900),
-    })
-    join(ts, errs)
-    stf, stc, stp = need(out["files"], "x03_files"), need(out["cont"], "x03_cont"), need(out["pool"], "x03_pool")
-    ftable.spec_violation(rep, stf, "x03_files")
-    ftable.spec_violation(rep, stc, "x03_cont")
-    rep.add_tlc("x03_files", stf)
-    rep.add_tlc("x03_cont", stc)
-    lap("tlc_models")
-    if rep.violations:
-        return rep.finish()
-
-    # ---------------- must-fail variants (run while the function table is replayed)
+    cc = cconst(3 if thorough else 2, [1, 2, 3, 4, 5], ARGS, not thorough)
     small = cconst(2, [4], ["L12", "L1", "L0"], True)
     variants = {
         "mask_shape_asserted_after_conversion": (lambda: tlc.run_tlc("MC_BandSelect.tla", cfg("CSpec", cconst(1, [1], ["MTFT", "MTTT"], False), ["MaskEqualsList"],
@@ -1064,7 +1069,26 @@ def _check(rep, pid, tier):
                                                    tname("v_win"), workers=2, timeout=900),
                                "WindowDoc", "np.all instead of np.any over the k-points"),
     }
-    vts, vout, verrs = parallel({k: v[0] for k, v in variants.items()})
+    jobs = {
+        "cont": lambda: tlc.run_tlc("MC_BandSelect.tla", cfg("CSpec", cc, CINV), tname("cont"), workers=4, dump=True, coverage=False,
+                                    timeout=3000 if thorough else 1500),
+        "files": lambda: tlc.run_tlc("MC_BandSelectFiles.tla", cfg("FSpec", fconst, FINV), tname("files"), workers=4, dump=True, coverage=False, timeout=1800),
+        "pool": lambda: tlc.run_tlc("MC_BandSelect.tla", cfg("PSpec", cc, []), tname("pool"), workers=1, dump=True, coverage=False, timeout=900),
+    }
+    jobs.update({k: v[0] for k, v in variants.items()})
+    run = Jobs(jobs)
+    try:
+        return _check2(rep, vio, run, variants, thorough, rng, wd, names, timing, lap, tname)
+    finally:
+        run.finish()
+
+
+def _check2(rep, vio, run, variants, thorough, rng, wd, names, timing, lap, tname):
+    stf = need(run.get("files"), "x03_files")
+    if ftable.spec_violation(rep, stf, "x03_files"):
+        return rep.finish()
+    rep.add_tlc("x03_files", stf)
+    lap("tlc_function_table")
 
     # ---------------- function table on the real classes
     fr = FileReplay(vio)
@@ -1088,13 +1112,11 @@ def _check(rep, pid, tier):
     rep.part("replay_function_table", states=fr.n, calls_per_class_and_input={f"{c}:{k}": v for (c, k), v in sorted(fr.count.items())})
     lap("replay_function_table")
 
-    join(vts, verrs)
-    for k, (_, inv, what) in variants.items():
-        sv = need(vout[k], k)
-        if not sv.get("violation") or sv["violation"][1] != inv:
-            raise MachineryError(f"sensitivity self-test failed: variant {k} ({what}) must violate {inv}, TLC says {sv.get('violation')}")
-        rep.part("must_fail_" + k, sensitivity_violation=sv["violation"][1], what=what)
-    lap("must_fail_variants")
+    stc, stp = need(run.get("cont"), "x03_cont"), need(run.get("pool"), "x03_pool")
+    if ftable.spec_violation(rep, stc, "x03_cont"):
+        return rep.finish()
+    rep.add_tlc("x03_cont", stc)
+    lap("tlc_container")
 
     # ---------------- the container on a real WannierData
     pstates = list(ftable.dump_states(stp))
@@ -1102,9 +1124,11 @@ def _check(rep, pid, tier):
         raise MachineryError("pool dump: one state expected")
     pool = {k: canon(v) for k, v in dict(pstates[0]["par"]).items()}
     drop_dump(stp)
-    states = {}
+    states, intern = {}, {}
     for s in ftable.dump_states(stc):
-        states[hkey(s["hist"])] = s
+        s = St(s, intern)
+        states[hkey(s.hist)] = s
+    del intern
     drop_dump(stc)
     if len(states) != stc["distinct"]:
         raise MachineryError("container dump: behaviours are not distinct states")
@@ -1120,7 +1144,7 @@ def _check(rep, pid, tier):
             return keys
         by = {}
         for k in keys:
-            e = states[k]["hist"][-1]
+            e = states[k].hist[-1]
             by.setdefault((e["op"], e["class"], e["must"]), []).append(k)
         pick = set()
         for grp in by.values():
@@ -1150,7 +1174,7 @@ def _check(rep, pid, tier):
         raise MachineryError(f"container replay: classes never executed: {missing}")
     rep.part("replay_container", behaviours=len(chosen), of_behaviours=len(states), did_what_the_model_says=followed, verified_steps=cr.nstep,
              steps_per_class={f"{a}:{b}": v for (a, b), v in sorted(cr.count.items())})
-    rep.sample(dict(container_behaviour=cr.describe(states[chosen[-1]]["hist"], len(chosen[-1]))))
+    rep.sample(dict(container_behaviour=cr.describe(states[chosen[-1]].hist, len(chosen[-1]))))
     lap("replay_container")
 
     # ---------------- to_npz / from_npz around a selection (states of length <= 1 action)
@@ -1159,10 +1183,10 @@ def _check(rep, pid, tier):
         s = states[k]
         succ = {}
         for aid in COMMUTE:
-            k2 = k + (("select", aid, "", bool(s["cont"]["selected"])),)
+            k2 = k + (("select", aid, "", s.selected),)
             if k2 in states:
                 succ[aid] = states[k2]
-        files = cont_canon(s["cont"])
+        files = s.files()
         if not succ or "eig" not in files or not cr.memo.get(k) or any(v["dim"].get("NB") == 0 for v in files.values()):
             continue
         n = cr.npz(s, succ)
@@ -1173,6 +1197,14 @@ def _check(rep, pid, tier):
         raise MachineryError(f"only {ncomm} to_npz/from_npz commutations were executed")
     rep.part("replay_npz", commutations=ncomm)
     lap("replay_npz")
+
+    # ---------------- must-fail variants of the specification
+    for k, (_, inv, what) in variants.items():
+        sv = need(run.get(k), k)
+        if not sv.get("violation") or sv["violation"][1] != inv:
+            raise MachineryError(f"sensitivity self-test failed: variant {k} ({what}) must violate {inv}, TLC says {sv.get('violation')}")
+        rep.part("must_fail_" + k, sensitivity_violation=sv["violation"][1], what=what)
+    lap("must_fail_variants")
 
     # ---------------- code -> spec: recorded calls
     recs, meta = record_calls(rep, vio, rng, 1500 if thorough else 160, cr.info)
